@@ -161,7 +161,7 @@ FULL = tier(False, True)
 # ------------------------------------------------------------------ K06b: a class chain across modules; what post-processing derives
 CH_ATTR = ["absent", "classvar", "instvar", "classvar_doc", "instvar_doc", "property"]
 NCA = len(CH_ATTR)
-CH_IMPORT = ["plain", "from", "pkgattr"]
+CH_IMPORT = ["plain", "from", "pkgattr", "aliased_submodule"]
 
 
 def chain_sources(attrs, imps, docs):
@@ -187,14 +187,22 @@ def chain_sources(attrs, imps, docs):
             return "import pkg.%s\n" % mod, "pkg.%s.%s" % (mod, cls)
         if form == "from":
             return "from pkg.%s import %s\n" % (mod, cls), cls
+        if form == "aliased_submodule":
+            # the sub-module imported under an alias; besides the base, a module-level alias of a name that sub-module itself only
+            # IMPORTED (Up = <the class above>, see below) is used as the base of a second class
+            return "from pkg import %s as _m\n" % mod, "_m.%s" % cls
         return "from pkg import %s\n" % mod, "%s.%s" % (mod, cls)
     ia, ba = imp(CH_IMPORT[imps[0]], "ma", "A")
     ib, bb = imp(CH_IMPORT[imps[1]], "mb", "B")
+    extra_c = ""
+    if CH_IMPORT[imps[1]] == "aliased_submodule":
+        extra_c = "Root = _m.Up\nclass C2(Root):\n    '''C2'''\n"
     return {
         "pkg": ("'''pkg'''\n", True),
         "pkg.ma": ("class A:\n" + body(0, "A"), False),
-        "pkg.mb": (ia + "class B(%s):\n" % ba + body(1, "B"), False),
-        "pkg.mc": (ib + "class C(%s):\n" % bb + body(2, "C"), False),
+        # mb also imports A under another name: a name mb does not define itself
+        "pkg.mb": (ia + "from pkg.ma import A as Up\nclass B(%s):\n" % ba + body(1, "B"), False),
+        "pkg.mc": (ib + "class C(%s):\n" % bb + body(2, "C") + extra_c, False),
     }
 
 
@@ -228,19 +236,19 @@ from pydoctor import model  # noqa: E402
 @harness(
     parts=lambda: [[a, b] for a in range(NCA) for b in range(NCA)], timeout=(240, 1200), cls="E", tracing="concrete-after-choice", twin="first",
     code=["pydoctor.model.defaultPostProcess", "_inherits_instance_variable_kind", "Inheritable.docsources", "Class._init_mro / compute_mro / init_finalbaseobjects", "pydoctor.astbuilder.ModuleVistor.visit_Import/visit_ImportFrom (on-demand processing)", "System.process / processModule"],
-    bounds={"quick": "a three-class chain A <- B <- C over three sibling modules; attribute v per class absent / class variable / instance variable / each with docstring / property (216 combinations); import form of each base plain / from / through the package (9); all 6 analysis orders; class and method docstrings present on a subset (quick: one fixed subset, thorough: 8 subsets)",
+    bounds={"quick": "a three-class chain A <- B <- C over three sibling modules; attribute v per class absent / class variable / instance variable / each with docstring / property (216 combinations); import form of each base plain / from / through the package / sub-module imported under an alias, with a module-level alias of a re-imported name as a second base (16); all 6 analysis orders; class and method docstrings present on a subset (quick: one fixed subset, thorough: 8 subsets)",
             "thorough": "same x 8 subsets of docstrings"},
     outside="chains longer than three; diamonds (C05 decides linearisations); several roots",
 )
 def h_chain_schedule(a2: int, i0: int, i1: int, docs: int, si: int) -> bool:
     """
-    pre: 0 <= a2 < NCA and 0 <= i0 <= 2 and 0 <= i1 <= 2 and 0 <= docs < 64 and 1 <= si <= 5
+    pre: 0 <= a2 < NCA and 0 <= i0 <= 3 and 0 <= i1 <= 3 and 0 <= docs < 64 and 1 <= si <= 5
     pre: (FULLC and docs % 9 == 0) or docs == 9
     post: _
     """
     a0, a1 = PART if PART is not None else [2, 1]
     a2 = pick(a2, 0, NCA - 1)
-    i0, i1 = pick(i0, 0, 2), pick(i1, 0, 2)
+    i0, i1 = pick(i0, 0, 3), pick(i1, 0, 3)
     docs = pick(docs, 0, 63)
     si = pick(si, 1, 5)
     with NoTracing():
